@@ -102,9 +102,16 @@ def _hist_configs(rng, k):
             th["kw"] = scat.MIE_OPTS[(cur + 1 + j % 3) % 4]
             what = "mie_options"
         elif th["t"] == "Multisphere":
-            cur = scat.MS_OPTS.index(th.get("kw", {})) if th.get("kw", {}) in scat.MS_OPTS else 0
-            th["kw"] = scat.MS_OPTS[(cur + 1 + j % 3) % 4]
-            what = "multisphere_options"
+            # every other option set of the solver (radial component on, the other interaction solver, tight tolerances)
+            cur = th.get("kw", {})
+            for oi, kw in enumerate(scat.MS_OPTS):
+                if kw == cur:
+                    continue
+                c2 = copy.deepcopy(out[j])
+                c2["theory"]["kw"] = kw
+                c2["variant_of"] = [j, "multisphere_options_%d" % oi]
+                out.append(c2)
+            continue
         elif "rot" in cfg["scat"]:
             cfg["scat"]["rot"] = [cfg["scat"]["rot"][0], cfg["scat"]["rot"][1] + 0.21, cfg["scat"]["rot"][2] + 0.4]
             what = "rotation"
@@ -191,6 +198,13 @@ def cases(tier, seed):
                     "center": [float(rng.uniform(0, 1.5)), float(rng.uniform(0, 1.5)), float(rng.uniform(5, 20))],
                     "shape": [int(rng.integers(1, 7)), int(rng.integers(2, 7))], "spacing": [float(rng.uniform(0.1, 0.4)), float(rng.uniform(0.1, 0.4))],
                     "seed": [seed, "idmc", i]})
+    # the far-field point detector (detector_points(theta, phi): r = infinity), which HoloPy accepts for every calc_* function
+    for i in range(6 if tier == "quick" else 60):
+        kind = ["mie_sphere", "mie_layered", "multisphere", "tmatrix_spheroid", "mie_spheres", "mie_sphere"][i % 6]
+        cfg = scat.gen_config(rng, kind)
+        npt = int(rng.integers(1, 6))
+        cfg["det"] = {"t": "sph", "r": None, "theta": [float(v) for v in rng.uniform(0.0, 1.0, npt)], "phi": [float(v) for v in rng.uniform(0, 2 * math.pi, npt)]}
+        out.append({"id": "farfield-%d" % i, "kind": "farfield", "cfg": cfg, "ckind": kind, "allow_events": ["contract.calc_*.nonfinite"], "cost": 3})
     # histories
     ngroups = 1 if tier == "quick" else 6
     for g in range(ngroups):
@@ -266,6 +280,19 @@ def _identity(det, s, th, args, scaling, pol):
 @scat.guarded
 def run_case(case):
     return globals()["_run_" + case["kind"]](case)
+
+
+def _run_farfield(case):
+    from holopy.scattering import calc_holo, calc_field, calc_intensity
+    det, s, th, args = _objs(case["cfg"])
+    f = calc_field(det, s, theory=th, **args).values
+    h = calc_holo(det, s, theory=th, scaling=0.8, **args).values
+    I = calc_intensity(det, s, theory=th, **args).values
+    bad = ~np.isfinite(f[..., :2]).all(axis=-1)           # points where a transverse field component is not a number
+    flags = {"finite_on_farfield_detector": bool(np.isfinite(f).all() and np.isfinite(h).all() and np.isfinite(I).all()),
+             # a field that is not a number must not come out as a finite hologram / intensity
+             "hologram_does_not_hide_nan": bool(np.all(~np.isfinite(h.ravel()[bad.ravel()])) and np.all(~np.isfinite(I.ravel()[bad.ravel()])))}
+    return {"resid": {}, "flags": flags, "fmax": 1.0, "n_nan_points": int(bad.sum())}
 
 
 def _run_identity(case):
@@ -363,6 +390,10 @@ def judge(case, obs):
         for k, v in obs["flags"].items():
             if not v:
                 out.append({"mech": "identity_multi.%s" % k.split("@")[0], "detail": "flag %s false; labels=%s" % (k, case["labels"])})
+    if case["kind"] == "farfield":
+        for k, v in obs["flags"].items():
+            if not v:
+                out.append({"mech": "farfield.%s" % k, "detail": "flag false; kind=%s theory=%s; points with a non-finite field: %s" % (case["ckind"], case["cfg"]["theory"], obs.get("n_nan_points"))})
     if case["kind"] == "identity":
         desc = {"ckind": case["ckind"], "scaling": case["scaling"], "optics_in": case["optics_in"], "theory": case["cfg"]["theory"], "det": case["cfg"]["det"].get("t")}
         for k, v in obs["resid"].items():
